@@ -263,21 +263,23 @@ Lemma orphans_walk xs : forall s E p (Q : fs -> Prop),
 Proof.
   induction xs as [|x xs IH]; intros s E p Q Hg Hnl Hp.
   - cbn [map ign app]. apply Hp; [exact Hg|reflexivity|reflexivity].
-  - cbn [map ign app]. apply walk_ok_ignore_cons; [now apply good_safe|].
-    unfold exec_or. destruct (exec (CRename (NSst x) (NTrashSst x)) s) as [s1|] eqn:E1.
-    + apply exec_rename_inv in E1. destruct E1 as (f1 & L1 & ->).
-      set (s1 := set (NTrashSst x) f1 (remove (NSst x) s)).
-      assert (Hu : upd_rel s s1 (NSst x) None).
-      { intros m Hm. unfold s1. rewrite lookup_set, lookup_remove.
-        destruct (name_eqb m (NTrashSst x)) eqn:En; [apply name_eqb_eq in En; subst m; discriminate|reflexivity]. }
-      assert (Hw1 : wf s1) by (unfold s1; apply wf_set, wf_remove, Hg).
-      assert (Hg1 : Good s1 E) by (apply (good_remove_sst s s1 x E Hw1 Hu); [apply Hnl; now left|exact Hg]).
-      assert (Hstrs1 : mani_strs s1 = mani_strs s) by (apply (upd_rel_strs _ _ _ _ Hu); discriminate).
-      apply (IH s1 E p Q Hg1).
-      * intros y Hy. rewrite Hstrs1. apply Hnl. now right.
-      * intros s' Hg' Hs' Hl'. apply Hp; [exact Hg'|congruence|].
-        intros m. rewrite Hl'. apply (upd_rel_other _ _ _ _ (NLog m) Hu eq_refl). discriminate.
-    + apply (IH s E p Q Hg); [intros y Hy; apply Hnl; now right|exact Hp].
+  - cbn [map ign app].
+    assert (Hskip : walk_ok (ign (map (fun x => CRename (NSst x) (NTrashSst x)) xs) ++ p) s E None Q)
+      by (apply (IH s E p Q Hg); [intros y Hy; apply Hnl; now right|exact Hp]).
+    apply walk_ok_ignore_cons; [now apply good_safe| |exact (proj1 Hskip)].
+    unfold exec_or. destruct (exec (CRename (NSst x) (NTrashSst x)) s) as [s1|] eqn:E1; [|exact Hskip].
+    apply exec_rename_inv in E1. destruct E1 as (f1 & L1 & ->).
+    set (s1 := set (NTrashSst x) f1 (remove (NSst x) s)).
+    assert (Hu : upd_rel s s1 (NSst x) None).
+    { intros m Hm. unfold s1. rewrite lookup_set, lookup_remove.
+      destruct (name_eqb m (NTrashSst x)) eqn:En; [apply name_eqb_eq in En; subst m; discriminate|reflexivity]. }
+    assert (Hw1 : wf s1) by (unfold s1; apply wf_set, wf_remove, Hg).
+    assert (Hg1 : Good s1 E) by (apply (good_remove_sst s s1 x E Hw1 Hu); [apply Hnl; now left|exact Hg]).
+    assert (Hstrs1 : mani_strs s1 = mani_strs s) by (apply (upd_rel_strs _ _ _ _ Hu); discriminate).
+    apply (IH s1 E p Q Hg1).
+    + intros y Hy. rewrite Hstrs1. apply Hnl. now right.
+    + intros s' Hg' Hs' Hl'. apply Hp; [exact Hg'|congruence|].
+      intros m. rewrite Hl'. apply (upd_rel_other _ _ _ _ (NLog m) Hu eq_refl). discriminate.
 Qed.
 
 Lemma orphan_calls_map s :
